@@ -1309,8 +1309,10 @@ func deadlineAfter(now time.Time, seconds float64) int64 {
 	if d >= float64(math.MaxInt64-n) {
 		return math.MaxInt64
 	}
-	if d <= float64(math.MinInt64) {
-		return math.MinInt64 + n
+	if d <= float64(math.MinInt64/2) {
+		// far in the past; keeps "deadline - now" inside of the range for any
+		// later now as well (TTL, AOFSHRINK)
+		return math.MinInt64/2 + n
 	}
 	return n + int64(d)
 }
